@@ -59,6 +59,7 @@ var exprSwitches = map[string]string{
 	"sql.Calc.calcEquation":                        "not armed: constant folding of arithmetic in the parser (value property)",
 	"sql.baseStmtParser.setTagFilterExprValue":     "not armed: parser filling the value of a tag filter it just created (construction, not traversal)",
 	"sql.queryStmtParser.check":                    "not armed: statement validation (rejects, never rewrites)",
+	"sql.isIncompleteExpr":                         "C17 operands-present guard (F33/F37): tests the operands of a paren / binary node for nil, never rewrites",
 }
 
 func init() {
